@@ -665,4 +665,160 @@ theorem consistent_sampling_audit_risk_limit (base : List Sampling.Card) (num : 
   rw [List.length_range] at this
   exact this
 
+/-! ### the audit in closed form (no sorting): used to compute the example in the kernel -/
+
+abbrev CsData := List (Except Sampling.Err (List Nat))
+
+/-- a round's per-contest data in closed form: for every contest the first `n_c` entries of the sub-order of `π`
+of the cards listing it -/
+def specData (base : List Sampling.Card) (ids : List String) (sizes : List Nat) (π : List Nat) : CsData :=
+  List.zipWith (fun id n => .ok ((π.filter (lists base id)).take n)) ids sizes
+
+/-- the loop of `csLoop` on the closed-form data, for a policy that looks at the data cards of the rounds so far -/
+def csSpecLoop (base : List Sampling.Card) (ids : List String) (val : String → String → Nat → ℚ)
+    (T : String → String → SeqTest) (s : Status.State) (pol' : List CsData → CsRound) (π : List Nat) :
+    Nat → List CsData → Bool
+  | 0, _ => false
+  | K + 1, seenD =>
+    roundComplete ids val T s (specData base ids (pol' seenD).sizes π) ||
+      csSpecLoop base ids val T s pol' π K (seenD ++ [specData base ids (pol' seenD).sizes π])
+
+/-- **the literal loop equals the closed form** when every contest gets at least one card in every round (and at
+most as many as list it) -/
+theorem csLoop_eq_spec (base : List Sampling.Card) (num : Nat → Nat) (hnum : StrictMono num) (π : List Nat)
+    (hπ : π.Perm (List.range base.length)) (ids : List String) (hids : ids.Nodup)
+    (val : String → String → Nat → ℚ) (T : String → String → SeqTest) (s : Status.State)
+    (pol' : List CsData → CsRound) (hpol : ∀ seenD cid, SizesOk base ids cid (pol' seenD).sizes) :
+    ∀ (K : Nat) (st : CsState) (seen : List CsOut), CsInv (cvrList base num π) ids st →
+      csLoop ids val T s (fun seen => pol' (seen.map (·.dataCards))) K st seen
+        = csSpecLoop base ids val T s pol' π K (seen.map (·.dataCards))
+  | 0, _, _, _ => rfl
+  | K + 1, st, seen, hinv => by
+    obtain ⟨st', o, e, hinv', hlen, hdata⟩ :=
+      step_closed base num hnum π hπ ids hids "" st hinv (pol' (seen.map (·.dataCards))) (hpol _ "")
+    have hs := hpol (seen.map (·.dataCards))
+    have hd : o.dataCards = specData base ids (pol' (seen.map (·.dataCards))).sizes π := by
+      apply List.ext_getElem?
+      intro k
+      unfold specData
+      rw [List.getElem?_zipWith]
+      by_cases hk : k < ids.length
+      · have h1 : ids[k]? = some ids[k] := List.getElem?_eq_getElem hk
+        have hk' : k < (pol' (seen.map (·.dataCards))).sizes.length := by rw [(hs "").1]; exact hk
+        have h2 := List.getElem?_eq_getElem hk'
+        rw [h1, h2]
+        exact hdata k _ _ h1 h2 (((hs ids[k]).2 k _ _ h1 h2).2 rfl)
+      · rw [List.getElem?_eq_none (by omega), List.getElem?_eq_none (by omega)]
+    unfold csLoop csSpecLoop
+    simp only [e]
+    rw [csLoop_eq_spec base num hnum π hπ ids hids val T s pol' hpol K st' _ hinv']
+    simp only [List.map_append, List.map_cons, List.map_nil, hd]
+
+/-- `csAudit` in closed form -/
+theorem csAudit_eq_spec (base : List Sampling.Card) (num : Nat → Nat) (hnum : StrictMono num) (π : List Nat)
+    (hπ : π.Perm (List.range base.length)) (cons0 : List Sampling.Contest) (hids : (cons0.map (·.id)).Nodup)
+    (val : String → String → Nat → ℚ) (T : String → String → SeqTest) (s : Status.State)
+    (pol' : List CsData → CsRound) (hpol : ∀ seenD cid, SizesOk base (cons0.map (·.id)) cid (pol' seenD).sizes)
+    (K : Nat) :
+    csAudit base num cons0 s T val (fun seen => pol' (seen.map (·.dataCards))) K π
+      = csSpecLoop base (cons0.map (·.id)) val T s pol' π K [] :=
+  csLoop_eq_spec base num hnum π hπ _ hids val T s pol' hpol K _ [] (csInit_inv base num cons0 π)
+
+/-! ### non-vacuity -/
+section example_
+open Shangrla.NM
+
+def baseE : List Sampling.Card :=
+  [⟨["A", "B"], 0, false⟩, ⟨["A", "B"], 0, false⟩, ⟨["A"], 0, false⟩, ⟨["A"], 0, false⟩, ⟨["B"], 0, false⟩]
+def consE : List Sampling.Contest := [⟨"A", 0, none, none, 0⟩, ⟨"B", 0, none, none, 0⟩]
+def cfgA : Cfg := { N := some 4, u := 1, t := 1/2, randomOrder := true, kw := { eta := some (3/4) } }
+def cfgB : Cfg := { N := some 3, u := 1, t := 1/2, randomOrder := true, kw := { eta := some (3/4) } }
+def TE : String → String → SeqTest := fun cid _ =>
+  if cid = "A" then alphaMart cfgA (fixedAlternativeMean cfgA) else alphaMart cfgB (fixedAlternativeMean cfgB)
+def sE : Status.State :=
+  [{ id := "A", riskLimit := 3/5, assertions := [{ name := "a" }] },
+   { id := "B", riskLimit := 1/2, assertions := [{ name := "b" }] }]
+def valE : String → String → Nat → ℚ := fun cid _ i =>
+  if cid = "A" then [1, 0, 1/2, 1/2, 0].getD i 0 else 1
+def polE' : List CsData → CsRound
+  | [] => ⟨[2, 2], false⟩
+  | d :: _ =>
+    if (dataOf ["A", "B"] d "A").any (fun idx => idx.any (fun i => decide (valE "A" "a" i < 1/2)))
+    then ⟨[4, 3], true⟩ else ⟨[3, 2], true⟩
+
+
+theorem sizesOkE (sizes : List Nat) (h : sizes = [2, 2] ∨ sizes = [4, 3] ∨ sizes = [3, 2]) (cid : String) :
+    SizesOk baseE (consE.map (·.id)) cid sizes := by
+  refine ⟨by rcases h with rfl | rfl | rfl <;> rfl, ?_⟩
+  intro k id n h1 h2
+  rcases h with rfl | rfl | rfl <;> rcases k with _ | _ | k <;>
+    simp [consE] at h1 h2 <;> subst h1 <;> subst h2 <;> exact ⟨by decide, fun _ => by decide⟩
+
+theorem polE'_sizes (seenD : List CsData) :
+    (polE' seenD).sizes = [2, 2] ∨ (polE' seenD).sizes = [4, 3] ∨ (polE' seenD).sizes = [3, 2] := by
+  cases seenD with
+  | nil => left; rfl
+  | cons d _ =>
+    simp only [polE']
+    split
+    · right; left; rfl
+    · right; right; rfl
+
+/-- the policy of the example as a function of the rounds' outputs -/
+def polE : List CsOut → CsRound := fun seen => polE' (seen.map (·.dataCards))
+
+theorem example_cs_count :
+    ((orders (List.range 5)).filter (fun π => csAudit baseE id consE sE TE valE polE 2 π)).length = 50 := by
+  have h : (orders (List.range 5)).filter (fun π => csAudit baseE id consE sE TE valE polE 2 π)
+      = (orders (List.range 5)).filter (fun π => csSpecLoop baseE ["A", "B"] valE TE sE polE' π 2 []) := by
+    apply List.filter_congr
+    intro π hπ
+    exact csAudit_eq_spec baseE id strictMono_id π (mem_orders_perm hπ) consE (by decide) valE TE sE polE'
+      (fun seenD cid => sizesOkE _ (polE'_sizes seenD) cid) 2
+  rw [h]
+  decide +kernel
+
+/-- with one round only (sizes 2 and 2) the audit completes on 40 of the 120 orders: the escalation adds 10 -/
+theorem example_cs_count_round1 :
+    ((orders (List.range 5)).filter (fun π => csAudit baseE id consE sE TE valE polE 1 π)).length = 40 := by
+  have h : (orders (List.range 5)).filter (fun π => csAudit baseE id consE sE TE valE polE 1 π)
+      = (orders (List.range 5)).filter (fun π => csSpecLoop baseE ["A", "B"] valE TE sE polE' π 1 []) := by
+    apply List.filter_congr
+    intro π hπ
+    exact csAudit_eq_spec baseE id strictMono_id π (mem_orders_perm hπ) consE (by decide) valE TE sE polE'
+      (fun seenD cid => sizesOkE _ (polE'_sizes seenD) cid) 1
+  rw [h]
+  decide +kernel
+
+theorem dataE : (List.range baseE.length).filterMap (datum baseE valE "A" "a") = [1, 0, 1/2, 1/2] := by
+  decide +kernel
+
+/-- the hypotheses of the capstone are satisfiable: contest `A` (4 of the 5 cards list it) has the false
+assertion `a` (values 1, 0, 1/2, 1/2: mean exactly 1/2), contest `B` (3 cards) a true one; sample numbers =
+positions in the order; two rounds, the second chosen from what the first one showed -/
+example :
+    (((orders (List.range baseE.length)).filter
+        (fun π => csAudit baseE id consE sE TE valE polE 2 π)).length : ℚ) / (baseE.length.factorial : ℚ) ≤ 3/5 :=
+  consistent_sampling_audit_risk_limit baseE (fun _ => id) (fun _ => strictMono_id) consE (by decide) valE TE sE
+    _ (List.mem_cons_self) { name := "a" } (by simp) (fun _ => polE)
+    (fun _ _ seen => sizesOkE _ (polE'_sizes _) _) 2 sqrtRat cfgA (.alpha .fixedAlt)
+    (by show cfgA.N = some ((List.range baseE.length).filterMap (datum baseE valE "A" "a")).length
+        rw [dataE]; rfl) rfl
+    ⟨by norm_num [cfgA], ⟨by norm_num [cfgA, eps], by norm_num [cfgA, eps], by norm_num [cfgA]⟩, trivial⟩
+    (by norm_num) (by norm_num)
+    (by show ∀ v ∈ (List.range baseE.length).filterMap (datum baseE valE "A" "a"), 0 ≤ v ∧ v ≤ cfgA.u
+        rw [dataE]; intro v hv; simp at hv; rcases hv with rfl | rfl | rfl <;> norm_num [cfgA])
+    (by show ((List.range baseE.length).filterMap (datum baseE valE "A" "a")).sum
+          ≤ (((List.range baseE.length).filterMap (datum baseE valE "A" "a")).length : ℚ) * cfgA.t
+        rw [dataE]; norm_num [cfgA])
+
+/-- ... and the bounded event really happens: the exact fraction of the 120 orders is 5/12 -/
+theorem example_cs_exact :
+    (((orders (List.range baseE.length)).filter
+        (fun π => csAudit baseE id consE sE TE valE polE 2 π)).length : ℚ) / (baseE.length.factorial : ℚ) = 5/12 := by
+  have : baseE.length = 5 := rfl
+  rw [this, example_cs_count]
+  norm_num [Nat.factorial]
+
+end example_
 end Shangrla.RiskLimit
